@@ -9,6 +9,7 @@ import Py4hwV.Proto.Uart
      div | n | r0,r1,...              ->  q,clk;q,clk;...     (ClockDivider state after each clock with reset input r_t)
      edge | dir(0 pos,1 neg,2 both) | a0,a1,...  ->  r0,r1,... (combinational output in each cycle, then clock)
      softrx | P | x0,x1,...           ->  bytes
+     softrxt | P | x0,x1,...          ->  indices of the samples at which the software receiver emits a byte (mid stop bit)
      ok | accepted | delivered        ->  1/0   (Uart.deliveredOk)
      lineok | P | accepted | line     ->  1/0   (Uart.lineOk) -/
 open Proto Uart
@@ -38,6 +39,12 @@ def edgeRun (dir : Nat) : Nat → List Nat → List Int → List Int
     let r := if dir = 0 then edgePos a z else if dir = 1 then edgeNeg a z else edgeBoth a z
     edgeRun dir a as ((r : Int) :: acc)
 
+def softTimes (P : Nat) : SoftRx → Nat → List Nat → List Nat → List Nat
+  | _, _, [], acc => acc.reverse
+  | s, t, x :: xs, acc =>
+    let r := s.step P x
+    softTimes P r.1 (t + 1) xs (match r.2 with | some _ => t :: acc | none => acc)
+
 def handle (line : String) : String :=
   match fields line with
   | ["link", full, n, ins] =>
@@ -54,6 +61,7 @@ def handle (line : String) : String :=
     showLists (divRun n Div.init (parseNats rs) [])
   | ["edge", d, as] =>
     showInts (edgeRun ((parseInt? d).getD 0).toNat 0 (parseNats as) [])
+  | ["softrxt", p, xs] => showNats (softTimes ((parseInt? p).getD 0).toNat {} 0 (parseNats xs) [])
   | ["softrx", p, xs] => showNats (softRx ((parseInt? p).getD 0).toNat (parseNats xs))
   | ["ok", a, d] => showBool (deliveredOk (parseNats a) (parseNats d))
   | ["lineok", p, a, l] => showBool (lineOk ((parseInt? p).getD 0).toNat (parseNats a) (parseNats l))
